@@ -156,3 +156,49 @@ def register(op):
             return out
         finally:
             os.unlink(path)
+
+
+def register_rw(op):
+    @op
+    def rewrite_pyc(a):
+        """load_module then write_bytecode_file; returns the new image"""
+        from xdis.load import load_module, write_bytecode_file
+        data = bytes.fromhex(a["pyc"])
+        fd, path = tempfile.mkstemp(suffix=".pyc")
+        os.write(fd, data)
+        os.close(fd)
+        out = path + ".out.pyc"
+        try:
+            try:
+                if a.get("path") == "portable":
+                    import xdis.load as L
+                    saved = L.PYTHON_MAGIC_INT
+                    L.PYTHON_MAGIC_INT = -1
+                    try:
+                        r = load_module(path)
+                    finally:
+                        L.PYTHON_MAGIC_INT = saved
+                else:
+                    r = load_module(path)
+            except BaseException as e:  # noqa
+                return {"load_err": type(e).__name__}
+            version, ts, magic, co, ispypy, size, sip = r
+            try:
+                write_bytecode_file(out, co, magic, ts if ts else 1700000000, size or 0)
+            except BaseException as e:  # noqa
+                return {"write_err": type(e).__name__, "msg": str(e)[:120]}
+            return {"pyc": open(out, "rb").read().hex(), "native": isinstance(co, types.CodeType)}
+        finally:
+            for p in (path, out):
+                try:
+                    os.unlink(p)
+                except OSError:
+                    pass
+
+
+_reg_pyc = register
+
+
+def register(op):  # noqa: F811
+    _reg_pyc(op)
+    register_rw(op)
